@@ -176,8 +176,10 @@ PROPS = {
     },
     "C11": {
         "level": "exploration",
-        "tests": [T("TestC11Mirror", "kv", 4000, 1920000, shards=16),
-                  T("TestC11Contended", "kv", 160, 16000, shards=16, qshards=8)],
+        "tests": [T("TestC11Mirror", "kv", 24000, 1920000, shards=16, qshards=8),
+                  T("TestC11Contended", "kv", 160, 16000, shards=16, qshards=8),
+                  # one capture pass that meets a changed key and a deleted key of the same DBI (every pair)
+                  T("TestC11ChangeAndDelete", "kv", 1, 1, enum=True)],
         "known_tests": [T("TestKnownC11", "kv", 1, 1)],
         "assumptions": [
             "steady state: every step runs with the syncer's own bookkeeping of the last synced transaction id (changes made while the syncer is down are documented to be treated differently)",
